@@ -181,9 +181,16 @@ func (sc *StateCache) Get(key, blockHash string) (Value, bool) {
 			return nil, false
 		}
 
-		blockHash = prevHash.(string)
-		verifYield("get.bvs.Get.prev")
+		// a block's link is published after all of its values, so once the link has been seen the
+		// block's own entry is final: look at it again before moving on to the previous block (a commit
+		// that wrote the entry after the first look would otherwise be skipped, and the ancestor's stale
+		// value would be returned and memoised over the committed one)
 		vv, ok = bvs.Get(blockHash)
+		if !ok {
+			blockHash = prevHash.(string)
+			verifYield("get.bvs.Get.prev")
+			vv, ok = bvs.Get(blockHash)
+		}
 		if !ok {
 			// stop if the value is not found in previous maxHisDepth rounds
 			if count >= sc.maxHisDepth {
